@@ -28,8 +28,9 @@ BLOCKS = {
     'div-persistent':     ("x = 1/Y\nd = x + 1", ['x'], ['Y']),
     'div-transient':      ("x = 1/y\ny = 0.5*y + 1", ['x', 'y'], []),
     'deco-after-fail':    ("x = 3*x + G\nd = 2*x\nL = d(k-1)", ['x'], ['G']),
-    'div-persistent-expansive': ("x = 1/Y\ny = 2*y + 1", ['x', 'y'], ['Y']),
-    'div-persistent-oscillating': ("x = 1/Y + 0*y\ny = -1*y + G", ['x', 'y'], ['Y', 'G']),
+    'div-persistent-expansive': ("x = 1/Y\ny = 2*y + 1 + 0*x", ['x', 'y'], ['Y']),
+    'div-persistent-oscillating': ("x = 1/Y + 0*y\ny = -1*y + G + 0*x", ['x', 'y'], ['Y', 'G']),
+    'div-persistent-decorative': ("x = 1/Y\ny = 2*y + 1", ['x', 'y'], ['Y']),
 }
 
 
